@@ -3,6 +3,7 @@
 mod c16;
 mod cal;
 mod crongen;
+mod faults;
 mod cronmodel;
 mod cronsim;
 mod json;
@@ -38,6 +39,7 @@ fn main() {
         "c16" => c16::check(args.get(2).map(|s| s.as_str()).unwrap_or("quick"), seed()),
         "c17" => cronsim::check(args.get(2).map(|s| s.as_str()).unwrap_or("quick"), seed()),
         "c18" => tzsim::check(args.get(2).map(|s| s.as_str()).unwrap_or("quick"), seed()),
+        "c19" => faults::check(args.get(2).map(|s| s.as_str()).unwrap_or("quick"), seed()),
         "replay" => {
             let path = args.get(2).unwrap_or_else(|| usage());
             let text = match std::fs::read_to_string(path) {
@@ -61,6 +63,7 @@ fn main() {
                     "cronsim" => cronsim::replay(&doc),
                     "c16" => c16::replay(&doc),
                     "tzsim" => tzsim::replay(&doc),
+                    "faults" => faults::replay(&doc),
                     _ => {
                         eprintln!("HARNESS-ERROR: unknown engine {:?}", engine);
                         2
